@@ -21,6 +21,7 @@ import (
 	"github.com/cosmos/cosmos-sdk/crypto/keys/ed25519"
 	cryptotypes "github.com/cosmos/cosmos-sdk/crypto/types"
 	sdk "github.com/cosmos/cosmos-sdk/types"
+	txtypes "github.com/cosmos/cosmos-sdk/types/tx"
 	"github.com/cosmos/cosmos-sdk/types/tx/signing"
 	authsigning "github.com/cosmos/cosmos-sdk/x/auth/signing"
 
@@ -69,12 +70,19 @@ type orcMsg struct {
 }
 
 type orcTx struct {
+	// Infos >= 0: keep only the first Infos SignerInfos (public key + sign mode) although the tx has
+	// more signers; the kept signers sign properly, the remaining signature slots hold junk bytes, so
+	// that the number of raw signatures still equals the number of signers (tx.ValidateBasic).
+	// The zero value means "all" — use InfosSet to request a truncation (incl. to 0).
+	Infos    int
+	InfosSet bool
 	Msgs    []orcMsg
 	Forge   bool // signature made with a different key, validator's pubkey attached
 	WrongPK bool // signed with and carrying the signer-of-record's *wrong* pubkey (a stranger's)
 }
 
 type orc struct {
+	lastInfos [][2]bool // per SignerInfo of the last built tx: public key matches signer, signature verifies
 	c        *Chain
 	env      *Env
 	spec     orcSpec
@@ -409,6 +417,7 @@ func (o *orc) build(t orcTx) ([]byte, bool, bool, error) {
 		return nil, false, false, err
 	}
 	sigOK := true
+	o.lastInfos = make([][2]bool, len(signers))
 	for i, s := range signers {
 		priv := o.privOf(s)
 		if t.Forge || t.WrongPK {
@@ -419,7 +428,8 @@ func (o *orc) build(t orcTx) ([]byte, bool, bool, error) {
 			return nil, false, false, err
 		}
 		sigs[i].Data = &signing.SingleSignatureData{SignMode: mode, Signature: sg}
-		if !pubs[i].VerifySignature(bytesToSign, sg) {
+		o.lastInfos[i] = [2]bool{!t.WrongPK, pubs[i].VerifySignature(bytesToSign, sg)}
+		if !o.lastInfos[i][1] {
 			sigOK = false
 		}
 	}
@@ -427,7 +437,49 @@ func (o *orc) build(t orcTx) ([]byte, bool, bool, error) {
 		return nil, false, false, err
 	}
 	bz, err := txCfg.TxEncoder()(b.GetTx())
+	if err == nil && t.InfosSet && t.Infos < len(signers) {
+		bz, err = o.truncateSignerInfos(bz, signers, t.Infos)
+	}
 	return bz, !t.WrongPK, sigOK, err
+}
+
+// truncateSignerInfos rewrites the raw tx so that it carries only the first `keep` SignerInfos;
+// those signers sign the rewritten document (SIGN_MODE_DIRECT), the other signature slots get junk.
+func (o *orc) truncateSignerInfos(bz []byte, signers []int, keep int) ([]byte, error) {
+	var raw txtypes.TxRaw
+	if err := raw.Unmarshal(bz); err != nil {
+		return nil, err
+	}
+	var ai txtypes.AuthInfo
+	if err := ai.Unmarshal(raw.AuthInfoBytes); err != nil {
+		return nil, err
+	}
+	ai.SignerInfos = ai.SignerInfos[:keep]
+	aib, err := ai.Marshal()
+	if err != nil {
+		return nil, err
+	}
+	raw.AuthInfoBytes = aib
+	doc := txtypes.SignDoc{BodyBytes: raw.BodyBytes, AuthInfoBytes: aib, ChainId: o.c.Cfg.ChainID, AccountNumber: 0}
+	docBz, err := doc.Marshal()
+	if err != nil {
+		return nil, err
+	}
+	raw.Signatures = nil
+	o.lastInfos = o.lastInfos[:keep]
+	for i, s := range signers {
+		if i < keep {
+			sg, err := o.privOf(s).Sign(docBz)
+			if err != nil {
+				return nil, err
+			}
+			raw.Signatures = append(raw.Signatures, sg)
+			o.lastInfos[i][1] = o.privOf(s).PubKey().VerifySignature(docBz, sg)
+		} else {
+			raw.Signatures = append(raw.Signatures, []byte("not a signature of this validator, 64 bytes of junk ............"))
+		}
+	}
+	return raw.Marshal()
 }
 
 func orcClass(code uint32, space, log string) string {
@@ -460,9 +512,13 @@ func orcClass(code uint32, space, log string) string {
 	return fmt.Sprintf("other:%s:%d", space, code)
 }
 
-func (o *orc) opLineTx(t orcTx, size int, pk, sg bool) string {
+func (o *orc) opLineTx(t orcTx, size int, infos [][2]bool) string {
 	var sb strings.Builder
-	fmt.Fprintf(&sb, "orc.tx %d %d %d %d", size, b2i(pk), b2i(sg), len(t.Msgs))
+	fmt.Fprintf(&sb, "orc.tx %d %d", size, len(infos))
+	for _, in := range infos {
+		fmt.Fprintf(&sb, " %d %d", b2i(in[0]), b2i(in[1]))
+	}
+	fmt.Fprintf(&sb, " %d", len(t.Msgs))
 	for _, m := range t.Msgs {
 		fmt.Fprintf(&sb, " %d %d %d %d %d", m.Creator, m.Feeder, m.Based, m.Nonce, len(m.Srcs))
 		for _, s := range m.Srcs {
@@ -481,11 +537,12 @@ func (o *orc) opLineTx(t orcTx, size int, pk, sg bool) string {
 
 // deliver runs one tx through the real DeliverTx and records op + observation. Returns the class.
 func (o *orc) deliver(t orcTx) string {
-	bz, pk, sg, err := o.build(t)
+	bz, _, _, err := o.build(t)
 	if err != nil {
 		o.env.Note("build-error")
 		return "build-error"
 	}
+	infos := append([][2]bool{}, o.lastInfos...)
 	var res abci.ResponseDeliverTx
 	func() {
 		defer func() {
@@ -499,7 +556,7 @@ func (o *orc) deliver(t orcTx) string {
 	if strings.HasPrefix(cls, "other:") {
 		o.env.Note("unclassified " + cls + " " + firstN(res.Log, 80))
 	}
-	o.op(o.opLineTx(t, len(bz), pk, sg), cls+"|"+o.fullObs())
+	o.op(o.opLineTx(t, len(bz), infos), cls+"|"+o.fullObs())
 	o.env.Outcome("tx:" + cls)
 	return cls
 }
